@@ -367,6 +367,9 @@ pub mod optin;
 /// The alignment machinery of `vertical.rs` on the field lists of a parsed snippet.
 pub mod vertical;
 
+/// The brace decisions of `matches.rs` and `closures.rs` (`src/verif_hooks/braces.rs`).
+pub mod braces;
+
 /// Use trees, the comparators behind reordering and the grouping of reorderable items.
 ///
 /// Textual forms (shared by the checks of import reordering and import merging):
